@@ -136,3 +136,15 @@ Theorem C06_source_path_accessors : forall (B : backend) (u : url),
   gen_raw_path u = raw_path u /\ gen_path B u = path B u /\ gen_path_safe B u = path_safe B u /\ gen_absolute u = absolute u.
 Proof. exact gen_path_accessors_ok. Qed.
 Print Assumptions C06_source_path_accessors.
+
+(** ... and raw_query_string, query_string, raw_fragment, fragment, raw_path_qs, path_qs, parts *)
+From Yarl Require Import Proofs.GenNamesProofs.
+Theorem C06_source_query_fragment_accessors : forall (B : backend) (u : url),
+  gen_raw_query_string u = u_query u /\ gen_query_string B u = query_string B u
+  /\ gen_raw_fragment u = u_fragment u /\ gen_fragment B u = fragment B u
+  /\ gen_raw_path_qs u = raw_path_qs u /\ gen_parts B u = parts B u.
+Proof. exact gen_query_fragment_accessors_ok. Qed.
+Print Assumptions C06_source_query_fragment_accessors.
+Theorem C06_source_path_qs : forall (B : backend) (u : url), gen_path_qs B u = path_qs B u.
+Proof. exact gen_path_qs_ok. Qed.
+Print Assumptions C06_source_path_qs.
